@@ -225,16 +225,19 @@ CLAIMED = {
 
 # units added after the second and third round of seeded changes (details: ASBUILT.md)
 ADDENDA = {
+    'C07': ' The whole hash-group body of an ejection check keeps the molecules it did not select; an ejection check is made for the contig and end of the fragment that triggered it, whatever the iterator state; Fragment.update_span.',
+    'C02': ' Bounded: reverse_complement on every string over ACGTN up to 5 bases.',
+    'C01': ' FastqIterator reads LF, CRLF and unterminated last lines alike.',
     'C03': ' The constructor allocates its tables per instance (two parsers share nothing). Bounded: parse_barcode_file fills the whitelist table with the index written on the line of each barcode for one-column, barcode-first, index-first and named-index files of two rows (symbolic barcodes over ACGTN), and refuses a three-column file.',
     'C05': ' Bounded: get_contigs_with_reads lists a contig iff the index statistics show mapped or placed-unmapped records. ReadIterator puts a record into the slot of its mate number; the read group of a read is taken from its own tags.',
     'C06': ' Every pass of MoleculeIterator.__iter__ starts with empty buffers and reset counters. The bucket keys of CHIC and NlaIII fragments and the site overrides of the molecule classes are under contract; plain Fragment equality compares contig, strand, sample and UMI.',
     'C09': ' The homopolymer rejection of Fragment.__init__ treats a run of a base and of its complement alike (block contract).',
-    'C10': ' Bounded: create_count_table judges "inside the contig" with the contig lengths of the BAM file the read comes from (two files).',
-    'C11': ' Bounded: the blacklist dictionary built by create_count_table holds every interval of the BED file (3 rows), and the contig lengths are those of the file being read.',
+    'C10': ' Bounded: create_count_table judges "inside the contig" with the contig lengths of the BAM file the read comes from (two files). Bounded: a history of assignReads calls over two contigs of different length agrees with the specification call by call.',
+    'C11': ' Bounded: the blacklist dictionary built by create_count_table holds every interval of the BED file (3 rows), and the contig lengths are those of the file being read. Two blacklist intervals in file order; the XA predicate (bounded).',
     'C13': ' Bounded: read_to_consensus_dict reports every aligned base of the window with its quality, N included; get_consensus also with four fragments (plurality without absolute majority) and in the with_probs_and_obs variant.',
-    'C14': ' The consensus variant TAPS reads (with_probs_and_obs) and read_to_consensus_dict are re-verified here (bounded units of C13).',
+    'C14': ' The consensus variant TAPS reads (with_probs_and_obs) and read_to_consensus_dict are re-verified here (bounded units of C13). obtain_methylation_calls writes the (empty) call set also when no convertible base was seen; every TAPS molecule class of the tagger\'s method table obtains the calls when finalised.',
     'C15': ' Bounded: every aligned base is one observation with confidence 1 - 10^(-Q/10) (10^x uninterpreted).',
-    'C16': ' Bounded: FeatureAnnotatedMolecule.annotate queries the strand the stranded flag prescribes and reports exactly the features the container returned.',
+    'C16': ' Bounded: FeatureAnnotatedMolecule.annotate queries the strand the stranded flag prescribes and reports exactly the features the container returned. findFeaturesAtPysamAlign reports exactly the features an aligned block overlaps (both methods, bounded); annotate(method=1) looks up exactly the aligned positions.',
     'C17': ' blacklisted_binning_contigs tiles every contig once, over its whole length, against the blacklist intervals of that contig (loop contract over any number of contigs).',
     'C04': ' Header parsing (_parse_illumina_header) and __repr__ of TaggedRecord are under contract for the three Illumina header variants.',
     'C08': ' generate_tasks yields every contig region of the requested bin size once (loop contract).',
